@@ -122,10 +122,28 @@ def c13(tier, seed):
            'PhysicalFS@OSM over a directory that holds a file with a non-UTF-8 name created behind the library (replayed on a real directory)')
     ocs = ovl_cases('UO3', 2, ['C13'], seed, ncfg=40 if tier == 'quick' else None, k1_ops=overlay.HIST_OPS + overlay.OBS_OPS, k2=4 if tier == 'quick' else 30)
     ck.add(run_cases(prog, overlay.run_history_case, ocs), 'overlay histories')
+    # panics that need an interleaving: two threads, one call each on overlapping paths of one MemoryFS, every schedule
+    from . import threads
+    u3 = UNIVERSES['U3']()
+    tcalls = [(op, v) for op in C16_OPS for v in ('a', 'a_b')]
+    tpairs = [[[c1], [c2]] for i, c1 in enumerate(tcalls) for c2 in tcalls[i:] if (c1[0] in C16_MUT or c2[0] in C16_MUT)]
+    tshapes = [(('a', 'd'), ('a_b', 'f')), (('a', 'd'), ('a_b', 'd')), (('a', 'f'),)] if tier == 'quick' else shapes(u3)
+    tcases = [{'cfg': 'mem', 'universe': 'U3', 'shape': sh, 'programs': pr, 'mode': 'linearizable', 'prop': 'C13', 'panic_only': True} for sh in tshapes for pr in tpairs]
+    ck.add(run_cases(prog, threads.run_concurrent_case, tcases), 'two concurrent calls on overlapping MemoryFS paths, every interleaving at lock granularity: no schedule panics or deadlocks')
+    # the async port: stepwise walks with a removal in between and the reader kernels (panics on either API are C13 findings)
+    from . import twins, asynck
+    prog_a = load_program(('async-vfs',))
+    wsh = [sh for sh in shapes(u3) if len(sh) >= 2]
+    wcases = [{'universe': 'U3', 'config': c, 'state': sh} for c in (('mem',) if tier == 'quick' else ('mem', 'alt')) for sh in wsh]
+    ck.add(run_cases(prog_a, twins.run_walk_case, wcases), 'async port: walk_dir streams consumed item by item with a removal in between (pending futures 0/1/2)')
+    acases = [{'clen': c_, 'k': 3 if tier == 'quick' else 4} for c_ in range(0, 3)]
+    ck.add(run_cases(prog_a, asynck.run_async_reader_case, acases), 'async port: reader kernels on symbolic scripts')
     ck.bounds = {'universe': 'U5 (+U8 thorough)', 'reader': 'content 0..3/4 bytes, scripts of 3/4 steps, any 64-bit offset', 'overlay': 'UO3, 2 layers, k<=2',
+                 'threads': '2 threads x 1 call on /a, /a/b of %d trees, all schedules' % len(tshapes), 'async': 'walks over U3 trees with >= 2 entries; reader content 0..2 bytes',
                  'documented_panic_excluded': 'OverlayFS::new(&[])'}
     ck.assumptions = COMMON_ASSUMPTIONS + ['panics inside std/dependencies that the models do not describe are outside the claim; lock poisoning is out of scope',
-                                           'async API: reader kernels only (see C15); EmbeddedFS: see C18; PhysicalFS on hostile directory content: not encoded']
+                                           'async API: stepwise walks and reader kernels here; every call of the twin differential also reports panics of either API (C15); EmbeddedFS: see C18',
+                                           'threads: two calls on one MemoryFS, interleavings at lock-acquisition granularity (assumptions of C16)']
     ck.rule = 'every execution path that ends in a panic (MIR assert, modelled library panic, explicit panic!) or a self-deadlock is a counterexample'
     return ck.finish(prog)
 
@@ -213,8 +231,16 @@ def ovl_cases(universe, nlayers, props_, seed, ncfg=None, k1_ops=None, k2=0, k3=
             # copy/move inside the overlay (source possibly only in a lower layer), optionally followed by one more call
             for tr in overlay.TRANSFERS:
                 hs.append([tr])
-                if transfers > 1:
+                if transfers == 2:
                     hs.append([tr, (rng.choice(overlay.HIST_OPS), rng.choice([tr[1], tr[2]] + real))])
+                if transfers > 2:
+                    # the destination was removed through the overlay earlier (a marker exists for it)
+                    kinds_ = dict((a_, b_) for a_, b_, c_ in cfg)
+                    dst_ = tr[2]
+                    if dst_ in kinds_:
+                        hs.append([('remove_file' if kinds_[dst_] == 'f' else 'remove_dir_all', dst_), tr])
+                    elif u.parent(dst_) == 'R':
+                        hs.append([('write', dst_), ('remove_file', dst_), tr])
         if k2_first:
             # histories that start with the given first calls on entries of this configuration, then any call
             for o1 in k2_first:
@@ -454,6 +480,8 @@ def c11(tier, seed):
     from . import overlay
     oc = ovl_cases('UO4', 2, ['C11'], seed, ncfg=60 if tier == 'quick' else None, k1_ops=['remove_dir_all', 'create_dir_all'], tag='C11')
     ck.add(run_cases(prog, overlay.run_history_case, oc), 'create_dir_all / remove_dir_all through an overlay over nested lower-layer trees')
+    ot = ovl_cases('UOT', 2, ['C11'], seed, ncfg=50 if tier == 'quick' else None, transfers=3, tag='C11')
+    ck.add(run_cases(prog, overlay.run_history_case, ot), 'copy/move inside one overlay with pre-populated lower layers, also onto a destination that was removed through the overlay before')
     ck.bounds = {'universe': 'UT: source {a, a/b, a/b/c, f}, destination {x, x/b, x/b/c}', 'instance_pairs': pairs, 'file_bytes': '0..3 symbolic',
                  'io_copy_model_buffer': list(bufs), 'excluded': 'destination inside the source subtree (documented non-termination), wrong-type sources (unspecified)'}
     ck.assumptions = COMMON_ASSUMPTIONS + ['io::copy is a loop over the real reader/writer with a small model buffer (the 8 KiB constant of std is outside the claim)']
